@@ -634,4 +634,33 @@ Proof.
   eapply call_style_invariant; try eassumption; now rewrite E, ?E'.
 Qed.
 
+(* a value the caller passes reaches the body: through the chain of its Parameter if one is declared for the name,
+   unchanged otherwise (the names of one call being pairwise distinct) *)
+Theorem supplied_reaches_body : forall dc is_async c j b n w,
+  d_ignore_input dc = false -> List.length (c_args c) <= List.length (pos_params value sg) ->
+  NoDup (keys (named_assignment c)) -> self_guard value sg dc c = true ->
+  vrun dc is_async c = (j, FBody b) -> In (n, w) (named_assignment c) ->
+  match lookup_param value dc n with
+  | Some p => forall v, spec_param value is_none p w = VPass v ->
+              (d_mode dc <> KWARGS_WITHOUT_NONE \/ is_none v = false) -> dget n b = Some v
+  | None => (d_mode dc <> KWARGS_WITHOUT_NONE \/ is_none w = false) -> dget n b = Some w
+  end.
+Proof.
+  intros dc is_async c j b n w Ig L ND G H I.
+  destruct (arrival_some dc c Ig L) as [xs [A E]].
+  destruct (body_binding _ _ _ _ _ G H) as (r & W & NDr & B).
+  assert (exists x, In x xs /\ snd x = (n, w)) as [x [Ix Ex]].
+  { rewrite <- E in I. apply in_map_iff in I. destruct I as [x [? ?]]. eauto. }
+  assert (NDx : NoDup (map (fun y : tagged value => fst (snd y)) xs)).
+  { assert (E2 : map (fun y : tagged value => fst (snd y)) xs = keys (map snd xs)) by (unfold keys; now rewrite map_map).
+    now rewrite E2, E. }
+  destruct (supplied_result _ _ _ _ _ _ _ _ _ W A NDx Ix) as [v' [Hv Dv]]. rewrite Ex in Dv. cbn [fst snd] in Dv.
+  unfold ValidateGate.titem in Hv. rewrite Ex in Hv. cbn [fst snd] in Hv. unfold ValidateRef.step_m in Hv.
+  destruct (lookup_param value dc n) as [p|].
+  - intros v Sp K. rewrite pv_spec, Sp in Hv. cbn in Hv. injection Hv as <-.
+    rewrite B. now apply bound_val_some, dget_norm_keep.
+  - intro K. unfold undeclared_m in Hv. destruct (d_strict dc && _); [discriminate|]. cbn in Hv. injection Hv as <-.
+    rewrite B. now apply bound_val_some, dget_norm_keep.
+Qed.
+
 End ByName.
